@@ -14,6 +14,7 @@ include!(concat!(env!("GEO_VERIF_DIR"), "/contracts/kani/geo/c11.rs"));
 include!(concat!(env!("GEO_VERIF_DIR"), "/contracts/kani/geo/c01.rs"));
 include!(concat!(env!("GEO_VERIF_DIR"), "/contracts/kani/geo/c19.rs"));
 include!(concat!(env!("GEO_VERIF_DIR"), "/contracts/kani/geo/c15.rs"));
+include!(concat!(env!("GEO_VERIF_DIR"), "/contracts/kani/geo/c07.rs"));
 include!(concat!(env!("GEO_VERIF_DIR"), "/contracts/kani/geo/c12.rs"));
 
 #[cfg(kani)]
